@@ -24,10 +24,10 @@ Definition tracesort_case (names : list (list Z)) : list Z :=
 (* _VerilogSanitizer fed `pres` in this order: the identifier given to each name *)
 Definition sanitize_case (prefix : list Z) (pres : list (list Z)) : list (list Z) :=
   let p := map name_of_codes pres in
-  let m := sanitize_all src_verilog_valid (name_of_codes prefix) p in
+  let m := sanitize_all (src_verilog_valid_p (name_of_codes prefix)) (name_of_codes prefix) p in
   map (fun s => codes_of (varname m s)) p.
-Definition valid_case (names : list (list Z)) : list bool :=
-  map (fun s => src_verilog_valid (name_of_codes s)) names.
+Definition valid_case (prefix : list Z) (names : list (list Z)) : list bool :=
+  map (fun s => src_verilog_valid_p (name_of_codes prefix) (name_of_codes s)) names.
 
 (* ---- output_to_verilog: every name the module text mentions in a sorted list, in
    order, one per line, sections separated by '#'. ---- *)
@@ -36,11 +36,18 @@ Definition hash : ascii := ascii_of_N 35.
 
 Definition mkw (w : list Z * Z) : witem :=
   {| wname := name_of_codes (fst w); wkind := Z.to_N (snd w); wwidth := 0 |}.
-(* net = (sort name, raw?, op class, names to rename & print instead of the sort name) *)
-Definition mkn (n : list Z * bool * Z * list (list Z)) : nitem :=
+(* net = (sort name parts, raw?, op class, names to rename & print instead of the sort name);
+   sort name parts = [dest name], or [str(enable); str(addr); str(data)] for a memory write,
+   combined the way the source's _net_sorted does *)
+Definition mkn (n : list (list Z) * bool * Z * list (list Z)) : nitem :=
   match n with
-  | (s, raw, op, extra) =>
-      {| nsort := name_of_codes s; nraw := raw; nop := Z.to_N op; nnames := map name_of_codes extra |}
+  | (parts, raw, op, extra) =>
+      {| nsort := match map name_of_codes parts with
+                  | [we; a; d] => src_memwrite_sortname we a d
+                  | [s] => s
+                  | _ => []
+                  end;
+         nraw := raw; nop := Z.to_N op; nnames := map name_of_codes extra |}
   end.
 Definition wsec (kinds : list Z) : section witem :=
   {| s_head := [hash]; s_sel := fun w => existsb (fun k => Z.eqb k (Z.of_N (wkind w))) kinds;
@@ -50,12 +57,12 @@ Definition nsec (opclass : Z) : section nitem :=
      s_render := fun n => (match nnames n with x :: _ => x | [] => nsort n end ++ [nl])%list |}.
 
 Definition verilog_case (wsecs : list (list Z)) (nsecs : list Z)
-  (ws : list (list Z * Z)) (ns : list (list Z * bool * Z * list (list Z))) : list Z :=
-  codes_of (export_text src_natural_key src_natural_key_ltb src_present_verilog src_verilog_valid
+  (ws : list (list Z * Z)) (ns : list (list (list Z) * bool * Z * list (list Z))) : list Z :=
+  codes_of (export_text src_natural_key src_natural_key_ltb src_present_verilog src_valid_verilog
                         src_prefix_verilog (map wsec wsecs) (map nsec nsecs) (map mkw ws) (map mkn ns)).
 
 Definition testbench_case (wsecs : list (list Z)) (ws : list (list Z * Z)) : list Z :=
-  codes_of (export_text src_natural_key src_natural_key_ltb src_present_testbench src_verilog_valid
+  codes_of (export_text src_natural_key src_natural_key_ltb src_present_testbench src_valid_testbench
                         src_prefix_testbench (map wsec wsecs) [] (map mkw ws) []).
 
 (* ---- print_trace: names in printed order; print_vcd: identifiers in $var order ---- *)
@@ -63,6 +70,6 @@ Definition trace_case (names : list (list Z)) : list Z :=
   codes_of (trace_text src_trace_key src_trace_key_ltb (fun _ _ it => (fst it ++ [nl])%list)
                        (fun _ => []) (map (fun s => (name_of_codes s, [])) names)).
 Definition vcd_case (tracked : list (list Z)) (names : list (list Z)) : list Z :=
-  codes_of (vcd_text src_trace_key src_trace_key_ltb src_present_vcd src_verilog_valid src_prefix_vcd
+  codes_of (vcd_text src_trace_key src_trace_key_ltb src_present_vcd src_valid_vcd src_prefix_vcd
                      (fun v _ => (v ++ [nl])%list)
                      (map name_of_codes tracked) (map (fun s => (name_of_codes s, [])) names)).
